@@ -46,7 +46,7 @@ CHECKS = {
   "text": "Theorems over the model: an event's name is the stored watch path, or that path + '/' + the NUL-trimmed record "
           "name, and nothing else (no link resolution); the stored path of a first Add is clean(arg); an Add answered with "
           "an already listed wd leaves the existing entry (first alias wins); kernel-padded names of every length decode "
-          "exactly; the stored path is never empty and is absolute exactly when the argument is, and so is every event "
+          "exactly, and for every record (malformed ones too) the entry part of the name does not end in NUL and only NULs were cut; the stored path is never empty and is absolute exactly when the argument is, and so is every event "
           "name, and it ends in '/' only when it is the root (clean_ne_nil, clean_head_slash, clean_no_trailing_slash: all inputs). " + _INJ + "filepath.Clean/Dir/Base are modelled in Lean and compared exhaustively over {a . /}^<=7.",
   "design_ref": "DESIGN.md §5 C08", "note": _INJ_NOTE + "filepath.Clean/Dir/Base (stdlib) modelled and differentially validated only.",
   "technique": "Lean 4 proofs over a hand-written model + differential correspondence (names at every padding residue, all path spellings)",
